@@ -461,6 +461,8 @@ def make_ctx(thorough, levels_list, only=None, missing=False):
         text_multisets = [base]
         int_ms, uint_ms, float_ms = [[3, 1, 2]], [[3, 1, 2]], [[0.5, -1.25, 2.0]]
         bool_ms = [[True, False, True]]
+        if not thorough:
+            text_multisets += [base[:2], base[:1] * 2]  # every number of levels 1..3 also in the quick tier
         if thorough:
             text_multisets += [base + [base[0]], base[:2], base[:1] * 2]
             int_ms += [[-2, 0, 5, -2], [7, 7]]
@@ -557,7 +559,7 @@ def subchecks(tier, seed):
     if not thorough:
         for name, klasses in CLASSES:
             add(name, False, LEVELS, klasses, "3 rows (3 levels / 3 distinct numbers; numeric also the 3 extreme values "
-                                              "of the dtype), every order")
+                                              "of the dtype), every order; text/categorical also 2 levels and 1 level")
         for name, klasses in CLASSES:
             add("missing-" + name, False, LEVELS, klasses,
                 "the 3-row column plus one missing cell, at every position (text/categorical: of two base orders)",
